@@ -148,7 +148,7 @@ def run(c, facts, tier):
     c.assumptions = ["system clock is not before 1970 (SystemTime::duration_since(UNIX_EPOCH).unwrap())", "input ≤ 4 KiB and nesting ≤ 64 (property bound): bounds the u32 identifier counter and the recursion depth"]
     c.explanation = (
         "Complete census (from the type-checked MIR of every body of the crate, closures included) of calls into panicking std APIs, explicit panics (unreachable!/todo!/…), overflow/bounds/division Assert "
-        "terminators and integer arithmetic through operator traits. Every site must be discharged by one of: set-cover, nonempty, const-arg, radix-bound, ensure-get, not-partial, never-built, variant-cover, arith, "
+        "terminators and integer arithmetic through operator traits. Every site must be discharged by one of: set-cover, finite-domain, nonempty, const-arg, radix-bound, ensure-get, not-partial, never-built, variant-cover, arith, "
         "len-arm, clock, ub-check, dependency-generated — each with a premise checked on E1 facts. Termination: no loops in crate code, winnow repetitions make progress (non-nullable bodies), recursion cycles are "
         "enumerated from the call graph and each is structural or guarded by token consumption."
     )
@@ -373,6 +373,26 @@ class Discharger:
         if ok2 is not None:
             return ok2, "set-cover", "arms cover %s; %s" % (sorted(have), det2)
         return None, "set-cover", "origin of the matched character in %s not recognised (%s)" % (fn, det2)
+
+    def finite_domain_free(self, f):
+        """A method whose only input is `self` of an enum with field-less variants has finitely many inputs: it is
+        evaluated on each of them (vlib/probe.py).  -> (ok, detail) or None when the function is not of that kind."""
+        from .. import probe as P
+
+        if f.impl is None or f.node.get("self") is None or [n_ for n_, _ in f.params if n_ != "self"]:
+            return None
+        ty = norm_ty(f.impl["self_ty"])
+        en = self.f.enums.get(ty)
+        if en is None or any(v["fields"] for v in en["variants"]):
+            return None
+        for v in en["variants"]:
+            try:
+                P.Probe(self.f, ty, f.module).invoke(f, ("enum", "%s::%s" % (ty, v["name"]), []), [])
+            except P.Panic as ex:
+                return False, "%s panics on %s::%s: %s" % (f.key, ty, v["name"], ex)
+            except P.NoEval as ex:
+                return None
+        return True, "%s takes only `self`, one of the %d field-less variants of %s: evaluated on every one of them, none panics" % (f.key, len(en["variants"]), ty)
 
     def panic_free_by_evaluation(self, f):
         """A panicking construct in helper `f` that the syntactic forms do not explain: decide by evaluation.
@@ -665,6 +685,9 @@ class Discharger:
             core = core["recv"]
         if (core["k"] == "mcall" and core["m"] in ("get", "get_mut")) or (core["k"] == "field" and core is not recv):
             return self.ensure_get(f, node, core)
+        fd = self.finite_domain_free(f)
+        if fd is not None:
+            return fd[0], "finite-domain", fd[1]
         return None, "census", "unwrap of `%s` in %s: no discharge form applies" % (rs[:60], fn)
 
     def radix(self, f, node, recv):
